@@ -63,6 +63,24 @@ mod verif_kani {
         }
     }
 
+    //@harness props=C20,C12 kind=bounded tier=thorough fns=RuleMetadata::should_apply bound="exactly 3 apply filters and 3 skip filters, abstract match relation: one symbolic-but-fixed boolean per filter" budget=900
+    //@ desc="deeper bound: should_apply(path) <==> some apply filter matches and no skip filter matches"
+    #[kani::proof]
+    #[kani::unwind(6)]
+    #[kani::stub(FilterPattern::matches, FilterPattern::verif_abstract_matches)]
+    fn vk_rules_should_apply_t() {
+        let m: [bool; 8] = kani::any();
+        FilterPattern::verif_set_answers8(m);
+        let meta = RuleMetadata {
+            apply_to_filters: vec![FilterPattern::verif_fake(0), FilterPattern::verif_fake(1), FilterPattern::verif_fake(2)],
+            skip_filters: vec![FilterPattern::verif_fake(3), FilterPattern::verif_fake(4), FilterPattern::verif_fake(5)],
+        };
+        let r = meta.should_apply(Path::new("src/a.lua"));
+        assert!(r == ((m[0] || m[1] || m[2]) && !(m[3] || m[4] || m[5])), "C20: rule applies iff some apply filter matches and no skip filter matches");
+        kani::cover!(r);
+        core::mem::forget(meta);
+    }
+
     //@harness props=C20 kind=mustfail fns=RuleMetadata::should_apply
     //@ desc="vacuity witness: the false claim `a rule with filters always applies` must be refuted"
     #[kani::proof]
